@@ -86,6 +86,14 @@ def set_push_rules(rep, F, sets, elems):
                     if g and mp.dominated_by(fn, c.bb, g[1]):
                         ok = True
                 if not ok:
+                    # `if set.contains(x) { return } set.insert(..); vec.push(..)`: the push is reached only on the absent edge of a
+                    # membership test on the same set type, after the insertion
+                    for q in F.calls(fid):
+                        if q.to and re.search(r"std::collections::(BTreeSet|HashSet)::<T.*>::contains$", q.to) and (VEC_RC.match(q.info.get("ga", "")) or [None, None])[1] == T:
+                            g = mp.bool_gate(F, fid, q)
+                            if g and mp.dominated_by(fn, c.bb, g[0]) and any(mp.dominated_by(fn, c.bb, ins.bb) for ins in inserts.get(T, [])):
+                                ok = True
+                if not ok:
                     rep.violation("SET-push", "%s|%s" % (key, H.short(T)), "%s pushes a %s into an element vector without first succeeding to insert it into the membership set (%s): the same element can be held and serialised twice" % (key, H.short(T), facts.loc_str(c.loc, fn)), {"function": fid, "file": fn["file"]})
                 else:
                     rep.sample({"rule": "SET-push", "function": key, "elem": H.short(T)})
